@@ -16,6 +16,7 @@ import (
 	"encoding/binary"
 	"errors"
 	"fmt"
+	"io"
 	mrand "math/rand"
 	"os"
 	"path/filepath"
@@ -47,6 +48,12 @@ type Cfg struct {
 	Initial uint64 `json:"initial"`        // genesis.InitialHeight (>= 1)
 	GOff    int64  `json:"goff"`           // genesis time, milliseconds after the base instant
 	Lazy    bool   `json:"lazy,omitempty"` // config.Node.LazyMode (does not enter the step; C17)
+	// Loop: the steps of the history are not driven by direct calls of publishBlockInternal but by the node's own
+	// production loop: after every successful boot the REAL Manager.AggregationLoop (normal or lazy, by Lazy) runs in
+	// a goroutine under virtual time (loop.go), each of its rounds — its call of m.publishBlock — consumes the next
+	// step item.  A round that hands an error back ends the loop (block/aggregation.go: the node halts): the items
+	// up to the next boot find no process.
+	Loop bool `json:"loop,omitempty"`
 }
 
 // Item is one element of a history.
@@ -62,6 +69,13 @@ type Item struct {
 	Txs     []int  `json:"txs,omitempty"` // transaction pool ids
 	Ts      int64  `json:"ts,omitempty"`  // batch timestamp, milliseconds after the base instant
 	ExecErr bool   `json:"exec_err,omitempty"`
+	// Seq == "err": the class of the error GetNextBatch returns (seqErr): 0 = by item index (the form of every
+	// older replay), 1 plain, 2 context.DeadlineExceeded, 3 wraps context.Canceled, 4 wraps ErrNoBatch,
+	// 5 wraps context.DeadlineExceeded, 6 a joined error holding context.Canceled, 7 os.ErrDeadlineExceeded (wrapped),
+	// 8 io.ErrUnexpectedEOF (wrapped)
+	ErrKind int `json:"err_kind,omitempty"`
+	// Loop cases: new transactions are announced (Manager.NotifyNewTransactions) before this round
+	Notify bool `json:"notify,omitempty"`
 	// a client of the running node (RPC GetBlock / DA submitter / header exchange) reads the height being
 	// produced and the one below it through the node's store WHILE the execution layer works, i.e. between
 	// the early save and the final save of the block.  Reads have no effect in the model.
@@ -272,19 +286,7 @@ func (s *seqDouble) GetNextBatch(ctx context.Context, req coresequencer.GetNextB
 	it := s.next
 	switch it.Seq {
 	case "err":
-		// a transient sequencing-layer fault of any class: a request-level deadline or cancellation of the
-		// sequencer's own client is NOT the node's context ending, and a wrapped ErrNoBatch is "no batch"
-		switch s.idx % 5 {
-		case 1:
-			return nil, context.DeadlineExceeded
-		case 2:
-			return nil, fmt.Errorf("seq double: rpc: %w", context.Canceled)
-		case 3:
-			return nil, fmt.Errorf("seq double: %w", block.ErrNoBatch)
-		case 4:
-			return nil, fmt.Errorf("seq double: upstream: %w", context.DeadlineExceeded)
-		}
-		return nil, errors.New("seq double: transient error")
+		return nil, seqErr(it.ErrKind, s.idx)
 	case "nil":
 		if s.idx%2 == 0 {
 			return nil, nil
@@ -301,6 +303,35 @@ func (s *seqDouble) GetNextBatch(ctx context.Context, req coresequencer.GetNextB
 	s.gave = append(s.gave, s.idx)
 	s.w.Or.gaveBatch(it)
 	return &coresequencer.GetNextBatchResponse{Batch: &coresequencer.Batch{Transactions: txs}, Timestamp: msToTime(it.Ts), BatchData: cursorBytes(CursorID(s.idx))}, nil
+}
+
+// NSeqErrKinds is the number of explicit error classes of seqErr.
+const NSeqErrKinds = 8
+
+// seqErr is a transient sequencing-layer fault of any class: a request-level deadline or cancellation of the
+// sequencer's own client (or of something behind it) is NOT the node's context ending, and a wrapped ErrNoBatch is
+// "no batch".  kind 0 = chosen by the item index, as every replay written before the kinds existed expects.
+func seqErr(kind, idx int) error {
+	if kind <= 0 || kind > NSeqErrKinds {
+		kind = []int{1, 2, 3, 4, 5}[idx%5]
+	}
+	switch kind {
+	case 2:
+		return context.DeadlineExceeded
+	case 3:
+		return fmt.Errorf("seq double: rpc: %w", context.Canceled)
+	case 4:
+		return fmt.Errorf("seq double: %w", block.ErrNoBatch)
+	case 5:
+		return fmt.Errorf("seq double: upstream: %w", context.DeadlineExceeded)
+	case 6:
+		return errors.Join(errors.New("seq double: connection reset"), context.Canceled)
+	case 7:
+		return fmt.Errorf("seq double: read: %w", os.ErrDeadlineExceeded)
+	case 8:
+		return fmt.Errorf("seq double: %w", io.ErrUnexpectedEOF)
+	}
+	return errors.New("seq double: transient error")
 }
 
 type bcast[T any] struct {
@@ -345,6 +376,7 @@ type node struct {
 	seq  *seqDouble
 	hb   *bcast[*types.SignedHeader]
 	db   *bcast[*types.Data]
+	loop *loopCtl // Cfg.Loop: the node's own AggregationLoop, running (loop.go)
 }
 
 // PoolSize is the number of distinct transactions of a case; id 0 is the empty transaction, id 1 is 100 kB.
@@ -445,6 +477,10 @@ type Obs struct {
 	State  *StateObs
 	Tip    []PBlock // the block records served at the store height and one above it (the pending block), afterwards
 	ErrTxt string
+	// Cfg.Loop: after the item the node's production loop is running (it has neither returned nor reported an error);
+	// Halt: what the loop reported on the node's error channel when it ended on its own
+	Alive bool
+	Halt  string
 	// stop: the operations on cache files that completed before the process ended (all of SaveCache's, or those before
 	// the cut), as recorded by the kernel; CutK / CutTorn: the resolved crash point (torn = -1: between operations)
 	FOps    []FOp
@@ -540,7 +576,7 @@ func (w *World) Run(idx int, it Item) (obs Obs) {
 		if x := recover(); x != nil {
 			obs.Res = "panic"
 			obs.ErrTxt = fmt.Sprint(x)
-			w.node = nil
+			w.dropNode()
 			w.DS.FailAfter = -1
 			w.Or.fail("panic", fmt.Sprintf("item %d (%s) panicked: %v", idx, it.T, x))
 		}
@@ -553,7 +589,7 @@ func (w *World) Run(idx int, it Item) (obs Obs) {
 	var bootErr error
 	switch it.T {
 	case "boot":
-		w.node = nil
+		w.dropNode() // a running process is stopped first (its production loop returns)
 		exec := &execDouble{w: w, initFail: it.InitErr, initNext: rootVal(idx, it), initMaxB: MaxBytesOf(it)}
 		seq := &seqDouble{w: w}
 		hb, db := &bcast[*types.SignedHeader]{}, &bcast[*types.Data]{}
@@ -569,6 +605,10 @@ func (w *World) Run(idx int, it Item) (obs Obs) {
 		} else {
 			obs.Res = "boot-ok"
 			w.node = &node{m: m, st: nst, exec: exec, seq: seq, hb: hb, db: db}
+			if w.Cfg.Loop && !it.Crash {
+				w.startLoop(w.node) // as node/full.go does for an aggregator: go AggregationLoop(ctx, errCh)
+				obs.Alive = true
+			}
 		}
 		if !it.Crash {
 			w.Or.afterBoot(idx, it, exec.inits > 0 && !it.InitErr, err)
@@ -586,7 +626,19 @@ func (w *World) Run(idx int, it Item) (obs Obs) {
 		nd.exec.next, nd.exec.fail, nd.exec.maxB = rootVal(idx, it), it.ExecErr, MaxBytesOf(it)
 		nd.exec.peek = it.Peek
 		nc, nr, nh, ndat := len(nd.exec.calls), len(nd.seq.reqs), len(nd.hb.got), len(nd.db.got)
-		err := nd.m.VerifPublishBlock(w.ctx)
+		var err error
+		if nd.loop != nil {
+			// the round is made by the node's own production loop: its next call of m.publishBlock
+			var ran bool
+			if err, ran = w.loopRound(nd, it); !ran {
+				w.Or.fail("production-loop-makes-no-round", fmt.Sprintf("item %d: the node's production loop is running but does not start a production round", idx))
+				obs.Res = "no-round"
+				w.dropNode()
+				break
+			}
+		} else {
+			err = nd.m.VerifPublishBlock(w.ctx)
+		}
 		if len(nd.exec.calls) > nc {
 			c := nd.exec.calls[len(nd.exec.calls)-1]
 			obs.Call = &c
@@ -616,6 +668,17 @@ func (w *World) Run(idx int, it Item) (obs Obs) {
 			}
 			w.readBack(&obs)
 			w.Or.afterStep(idx, it, obs, nd.hb.got[nh:], nd.db.got[ndat:])
+		}
+		if nd.loop != nil {
+			alive, halt := nd.loop.state()
+			obs.Alive = alive
+			if halt != nil {
+				obs.Halt = halt.Error()
+			}
+			w.Or.afterRound(idx, it, obs, err)
+			if !alive {
+				w.dropNode() // the loop ended on its own: FullNode.Run shuts the node down (node/full.go:399-403)
+			}
 		}
 	case "stop":
 		obs.CutTorn = -1
@@ -656,7 +719,7 @@ func (w *World) Run(idx int, it Item) (obs Obs) {
 				w.Or.tornWrite = true
 			}
 		}
-		w.node = nil
+		w.dropNode()
 		obs.Res = "stopped"
 	case "tamper":
 		if err := w.tearCacheFile(it.TornFile, it.TornLen); err != nil {
@@ -670,7 +733,7 @@ func (w *World) Run(idx int, it Item) (obs Obs) {
 	if dsCrash {
 		// everything after the cut belongs to a process that is dead: discard it
 		w.DS.FailAfter = -1
-		w.node = nil
+		w.dropNode()
 		if obs.Res != "not-running" {
 			obs = Obs{Res: "crashed"}
 		}
@@ -1002,9 +1065,32 @@ func CaseCoq(cfg Cfg, hist []Item, obs []Obs, lo uint64, blocks []PBlock) string
 	return fmt.Sprintf("mk_case %s %s %s %s %s", vgen.N(cfg.Initial), vgen.Z(cfg.GOff), vgen.List(items), vgen.List(os), vgen.List(bs))
 }
 
+// UnifiedCoq wraps a case term for Check/ProducerLoopCheck.v: a Cfg.Loop case carries, per item, whether the node's
+// production loop was running afterwards.
+func UnifiedCoq(cfg Cfg, term string, obs []Obs) string {
+	if !cfg.Loop {
+		return "UPlain (" + term + ")"
+	}
+	al := make([]string, len(obs))
+	for i, o := range obs {
+		al[i] = "false"
+		if o.Alive {
+			al[i] = "true"
+		}
+	}
+	return fmt.Sprintf("ULoop (%s) %s", term, vgen.List(al))
+}
+
 // RunCase runs a whole history against the real code and returns the observations, the projected
-// final blocks and the oracle's verdicts.
+// final blocks and the oracle's verdicts.  A Cfg.Loop case runs inside a testing/synctest bubble (virtual time).
 func RunCase(r *mrand.Rand, cfg Cfg, hist []Item, probe bool) (w *World, obs []Obs, lo uint64, blocks []PBlock, err error) {
+	if cfg.Loop {
+		return runCaseInBubble(r, cfg, hist, probe)
+	}
+	return runCase(r, cfg, hist, probe)
+}
+
+func runCase(r *mrand.Rand, cfg Cfg, hist []Item, probe bool) (w *World, obs []Obs, lo uint64, blocks []PBlock, err error) {
 	w, err = NewWorld(r, cfg)
 	if err != nil {
 		return nil, nil, 0, nil, err
@@ -1017,5 +1103,6 @@ func RunCase(r *mrand.Rand, cfg Cfg, hist []Item, probe bool) (w *World, obs []O
 	if probe {
 		w.Or.probe(len(hist))
 	}
+	w.stopLoop() // the node is asked to stop: its production loop returns
 	return w, obs, lo, blocks, nil
 }
